@@ -6,6 +6,7 @@ THEOREMS = [
     "Lou.Alloc.request_capacity", "Lou.Alloc.run_inv", "Lou.Alloc.alloc_capacity", "Lou.Alloc.reported_le_alloc",
     "Lou.C01.fwdRun_hinv", "Lou.C01.fwdPassAccesses_ok", "Lou.C01.driver_fwd_safe",
     "Lou.Contract.fwdRun_inv",
+            "Lou.FwdOK.translate_contract", "Lou.ModelEngine.modelEngine_ok", "Lou.ModelEngine.model_driver_fwd_safe",
 ]
 
 CLAIM = dict(
@@ -20,7 +21,10 @@ CLAIM = dict(
           "driver; search under ASan+UBSan with exact-size caller arrays and exact-size scratch buffers (H1) over "
           "shipped tables x inputs (incl. >1024, inlen>outlen, NUL, U+FFFF) x all valid mode combinations x cursor "
           "positions x capacities x call histories."),
-    note=("The driver's index expressions (LouModel/Access.lean) are transcribed by hand. The engines' own accesses "
+    note=("Layer B engines as the engine of Layer A (LouProofs/ModelEngine.lean): the F0 main-pass model (translate_contract) and the multipass stage "
+          "model (fwdStage_contract) satisfy EngineOK for every table, so model_driver_fwd_safe states driver safety with NO hypothesis on the engines "
+          "for the modelled fragments. "
+          "The driver's index expressions (LouModel/Access.lean) are transcribed by hand. The engines' own accesses "
           "(rule selection, emphasis resolver, compbrl, swap/group, repword, match, pass interpreters) are NOT proved; "
           "they are observed under the sanitizers only. Use-after-free across arena relocation is a sanitizer matter."),
     technique="Lean 4 proof (allocator state machine + driver access obligations) + H5/H4 correspondence + sanitizer search",
